@@ -85,6 +85,44 @@ Theorem C15_test_is_rfc_equality : forall fo a, good a -> forall b, good b ->
 Proof. exact nodes_eq_spec. Qed.
 Print Assumptions C15_test_is_rfc_equality.
 
+(* ... and that equality is the mathematical one, clause by clause: integers are equal iff they are the same integer (Z, no
+   modulus - 2 and 8589934594 = 2 + 2*2^32 differ), strings iff they are the same bytes, arrays item by item, objects as sets
+   of members; doubles through the comparison `feq` supplied for them *)
+Theorem C15_rfc_equality_characterised : forall feq,
+  (forall x b, jeq feq (JI64 x) b = true <-> b = JI64 x) /\
+  (forall s b, jeq feq (JStr s) b = true <-> b = JStr s) /\
+  (forall x b, jeq feq (JBool x) b = true <-> b = JBool x) /\
+  (forall b, jeq feq JNull b = true <-> b = JNull) /\
+  (forall x b, jeq feq (JF64 x) b = true <-> exists y, b = JF64 y /\ feq x y = true) /\
+  (forall l b, jeq feq (JArr l) b = true <-> exists m, b = JArr m /\ Forall2 (fun x y => jeq feq x y = true) l m) /\
+  (forall xs b, jeq feq (JObj xs) b = true <->
+     exists ys, b = JObj ys /\ length xs = length ys /\
+                Forall (fun m => exists y, lookup (fst m) ys = Some y /\ jeq feq (snd m) y = true) xs).
+Proof.
+  intro feq.
+  split; [exact (jeq_int_iff feq)|]. split; [exact (jeq_str_iff feq)|]. split; [exact (jeq_bool_iff feq)|].
+  split; [exact (jeq_null_iff feq)|]. split; [exact (jeq_f64_iff feq)|]. split; [exact (jeq_arr_iff feq) | exact (jeq_obj_iff feq)].
+Qed.
+Print Assumptions C15_rfc_equality_characterised.
+
+(* A `test` operation succeeds iff the addressed value exists and is equal (in that sense) to the operand; otherwise the
+   call fails with JBL_ERROR_PATCH_TEST_FAILED; in every case the tree is exactly the one passed in. *)
+Theorem C15_test_succeeds_iff_equal : forall fo t o v,
+  klidx_inv t -> n_ty t <> TNone -> p_op o = OTest -> p_val o = Some v -> good v ->
+  snd (apply_op fo t o) = t /\
+  (fst (apply_op fo t o) = RcOk <->
+   exists x, (if is_root (p_path o) then Some (val t) else jget lenient (val t) (p_path o)) = Some x /\
+             jeq (f_eq fo) x (val v) = true) /\
+  (fst (apply_op fo t o) <> RcOk -> fst (apply_op fo t o) = RcTestFailed).
+Proof. exact test_iff_equal. Qed.
+Print Assumptions C15_test_succeeds_iff_equal.
+
+(* the integer leaf on trees: two integer nodes compare equal iff they hold the same integer, for all of Z *)
+Theorem C15_test_int_exact : forall fo kl k kl' k' x y,
+  nodes_eq fo (of_val kl k (JI64 x)) (of_val kl' k' (JI64 y)) = true <-> x = y.
+Proof. exact test_int_exact. Qed.
+Print Assumptions C15_test_int_exact.
+
 (* any error => the binary document is exactly the one passed in (for every conversion pair dec/enc) *)
 Theorem C15_failed_patch_leaves_binary :
   forall (B : Type) (dec : B -> node) (enc : node -> option B) (empty : B) fo b l,
@@ -158,3 +196,16 @@ Example C15_ex_test_unordered :
   let b := of_val 0 [] (JObj [([98], JArr [JNull]); ([97], JI64 1)]) in
   good a /\ good b /\ nodes_eq ex_fo a b = true.
 Proof. cbv zeta. split; [apply of_val_good | split; [apply of_val_good | reflexivity]]. Qed.
+
+(* integers that differ by a multiple of 2^32, nested in the compared object: the test fails, the following `remove` is not
+   applied, the binary document is returned as it was (seeded change round2/C15 made this call succeed) *)
+Example C15_ex_test_2pow32 :
+  let doc := of_val 0 [] (JObj [([105;100], JArr [JI64 0; JI64 (-4294967296)]); ([110], JI64 8589934594)]) in
+  let t1 := {| r_op := OTest; r_path := Some [47;105;100]; r_from := None; r_val := Some (ex_vnode (JArr [JI64 0; JI64 0])) |} in
+  let t2 := {| r_op := OTest; r_path := Some [47;110]; r_from := None; r_val := Some (ex_vnode (JI64 2)) |} in
+  let rm := {| r_op := ORemove; r_path := Some [47;110]; r_from := None; r_val := None |} in
+  klidx_inv doc /\ good (ex_vnode (JI64 2)) /\
+  patch_binary node (fun b => b) (fun n => Some n) zero_node ex_fo doc [t1; rm] = (RcTestFailed, doc) /\
+  patch_binary node (fun b => b) (fun n => Some n) zero_node ex_fo doc [t2; rm] = (RcTestFailed, doc) /\
+  jeq Z.eqb (JI64 8589934594) (JI64 2) = false.
+Proof. cbv zeta. split; [apply of_val_inv1 | split; [apply of_val_good | repeat split; reflexivity]]. Qed.
